@@ -1850,6 +1850,8 @@ class ITEIntroMacro(Macro):
             return Thm(args[0])
 
         ites = collect_ite(lhs)
+        if len(ites) == 0 or not rhs.is_conj() or not compare_sym_tm(lhs, rhs.arg1):
+            raise VeriTException("ite_intro", "rhs should be lhs conjoined with the definitions of its ite terms")
         ite_intros = []
         for t in ites:
             P, x, y = t.args
